@@ -339,10 +339,40 @@ def spelling_adopted(P, R, rule='C17.MPT.12'):
         # the block that renames also marks the parent as modified (the local tested before the object hook)
         hs = [t for t in rv.calls() if P.call_slot(t) == 'conf_node_base::hook']
         flags = {g[0]['name'] for t in hs for g in rv.guards(t.bid) if is_var(g[0]) and g[1] == '!=' and const_of(g[2]) == 0}
+        def sets_flag(u):
+            return u.ev['k'] == 'store' and is_var(u.ev.get('lhs')) and u.ev['lhs']['name'] in flags and const_of(u.ev.get('rhs')) not in (None, 0)
+        hooked = [t for t in hs if any(is_var(g[0]) and g[0]['name'] in flags for g in rv.guards(t.bid))]
         for t in stores:
-            for u in rv.block_sites(t.bid):
-                if u.ev['k'] == 'store' and is_var(u.ev.get('lhs')) and u.ev['lhs']['name'] in flags and const_of(u.ev.get('rhs')) not in (None, 0):
-                    flagged = True
+            # every feasible path from the renaming to the object's hook test sets the flag (it may be set a few statements
+            # on, from the result of a helper that did the renaming: constants of locals are followed)
+            def on_event(st, u, t=t):
+                if st == 'pre':
+                    return ('post', (), False) if u.key == t.key else st
+                _, consts, fl = st
+                ev = u.ev
+                if sets_flag(u):
+                    return ('post', consts, True)
+                if ev['k'] == 'store' and is_var(ev.get('lhs')) and ev['lhs'].get('sc') == 'local':
+                    d = dict(consts)
+                    d.pop(ev['lhs']['name'], None)
+                    if ev.get('op') == '=' and isinstance(const_of(ev.get('rhs')), int):
+                        d[ev['lhs']['name']] = const_of(ev['rhs'])
+                    return ('post', tuple(sorted(d.items())), fl)
+                return st
+
+            def on_edge(st, e):
+                if st == 'pre':
+                    return st
+                r = rules.edge_rel(e)
+                if r and is_var(r[0]) and isinstance(const_of(r[2]), int) and r[0]['name'] in dict(st[1]):
+                    v, c = dict(st[1])[r[0]['name']], const_of(r[2])
+                    if not {'==': v == c, '!=': v != c, '<': v < c, '<=': v <= c, '>': v > c, '>=': v >= c}.get(r[1], True):
+                        return None
+                return st
+            before, _, _, _ = rv.forward('pre', on_event, on_edge)
+            sts = [x for h in hooked for x in before.get(h.key, set()) if x != 'pre']
+            if hooked and sts and all(x[2] for x in sts):
+                flagged = True
     R.ob(rule, ok and flagged, stores[0] if stores else pairs[0], 'names are paired ignoring case, so the present-in-both arm of the merge adopts the new spelling of the name and marks the parent as changed', key='spelling:adopted')
     R.floor(rule, 1)
 
